@@ -161,8 +161,10 @@ class SimTerminal:
         return None
 
     # -- AL state machine ----------------------------------------------------------
+    al_status_extra = 0      # bits 5..7 of the AL status (e.g. 0x20: device identification loaded)
+
     def _al_status_word(self):
-        return self.al_state | (0x10 if self.al_error else 0)
+        return self.al_state | (0x10 if self.al_error else 0) | self.al_status_extra
 
     def _al_poll(self):
         code = self.al_spontaneous_error()      # < 0: error flag with status code 0
@@ -524,7 +526,8 @@ class SimTerminal:
 class WireFaults:
     """per-run fault configuration of the wire (rates in percent)"""
 
-    def __init__(self, loss=0, dup=0, reorder=0, delay_buckets=(50e-6,)):
+    def __init__(self, loss=0, dup=0, reorder=0, delay_buckets=(50e-6,), late=0):
+        self.late = late          # percent of frames that come back 25-45 ms late
         self.loss = loss
         self.dup = dup
         self.reorder = reorder
@@ -584,6 +587,10 @@ class SimBus:
             self.world.log(self.ifname, "lost", no)
             return
         delay = f.delay_buckets[tape.draw("wire/delay", len(f.delay_buckets))]
+        if f.enabled and f.late and tape.chance("wire/late", f.late):
+            # later than the 20 ms after which a sync group sends its frame again
+            delay = 0.025 + 0.005 * tape.draw("wire/late-by", 5)
+            self.world.count("fault/frame-late-beyond-resend-timeout")
         if delay != f.delay_buckets[0]:
             self.world.count("fault/frame-delayed")
         t = self.world.now + delay
